@@ -544,6 +544,11 @@ func (r *runningStep) provideEnablingInput(input map[string]any) error {
 	// This is an optional field, so no input means enabled.
 	enabled := input["enabled"] == nil || input["enabled"] == true
 	r.enabledInputAvailable = true
+	// Transition the state before unlocking so the step is not seen as waiting for input it has
+	// already been given.
+	if r.currentState == step.RunningStepStateWaitingForInput && r.currentStage == StageIDEnabling {
+		r.currentState = step.RunningStepStateRunning
+	}
 	r.enabledInput <- enabled
 	return nil
 }
